@@ -184,6 +184,8 @@ class Ref:
         # reference is used ONLY to classify a violation already established by the
         # strict reference (is the observation explained by exactly this mechanism?)
         self.quirks = frozenset(quirks)
+        self.dropped_unrestorable_none = False
+        self._cls_stack = []
 
     # ================================================================ options
     def dc_opts(self, name, ctx):
@@ -329,6 +331,7 @@ class Ref:
         saved = dict(self.tv_bind)
         if type_args is not None and df.get("generic"):
             self.tv_bind.update(dict(zip(df["generic"], type_args)))
+        self._cls_stack.append(name)
         try:
             fields = self.fam.dc_fields(name)
             if opts["sort_keys"]:
@@ -339,6 +342,10 @@ class Ref:
                     continue
                 raw = getattr(v, f["n"])
                 if raw is None and opts["omit_none"] and self.field_could_be_none(name, f):
+                    if not (f.get("dmode") == "default"
+                            and self.fam.values.get((self._owner(name, f["n"]), f["n"]), _MISSING) is None):
+                        # a dropped null that the decoder cannot restore from a None default
+                        self.dropped_unrestorable_none = True
                     continue
                 if opts["omit_default"] and f.get("dmode"):
                     if raw == self.fam.values[(self._owner(name, f["n"]), f["n"])]:
@@ -355,6 +362,7 @@ class Ref:
             return out
         finally:
             self.tv_bind = saved
+            self._cls_stack.pop()
 
     def _owner(self, name, fname):
         """class in which the (effective) field definition lives."""
@@ -465,7 +473,7 @@ class Ref:
         raise RefError("not a literal value")
 
     def _e_self(self, t, v, ctx):
-        raise NotImplementedError
+        return self._e_dc(("dc", self._cls_stack[-1]), v, ctx)
 
     # ================================================================ decode
     def dec(self, t, d, ctx=Ctx()):
@@ -727,6 +735,7 @@ class Ref:
         saved = dict(self.tv_bind)
         if type_args is not None and df.get("generic"):
             self.tv_bind.update(dict(zip(df["generic"], type_args)))
+        self._cls_stack.append(name)
         try:
             if fields and not hasattr(d, "get"):
                 raise RefNotMapping(name)
@@ -764,6 +773,7 @@ class Ref:
             return self._call(cls, **kw)
         finally:
             self.tv_bind = saved
+            self._cls_stack.pop()
 
     def _d_gdc(self, t, d, ctx):
         return self._d_dc(("dc", t[1]), d, ctx, type_args=[self.resolve_tv(a) for a in t[2]])
@@ -853,7 +863,10 @@ class Ref:
             return False
 
     def _d_self(self, t, d, ctx):
-        raise NotImplementedError
+        return self._d_dc(("dc", self._cls_stack[-1]), d, ctx)
+
+    def _c_self(self, t, v):
+        return self._c_dc(("dc", self._cls_stack[-1]), v)
 
     # ================================================================ conforms
     def conforms(self, t, v) -> bool:
@@ -989,6 +1002,7 @@ class Ref:
         saved = dict(self.tv_bind)
         if type_args is not None and df.get("generic"):
             self.tv_bind.update(dict(zip(df["generic"], type_args)))
+        self._cls_stack.append(t[1])
         try:
             for f in self.fam.dc_fields(t[1]):
                 if f.get("init") is False:
@@ -1001,6 +1015,7 @@ class Ref:
             return True
         finally:
             self.tv_bind = saved
+            self._cls_stack.pop()
 
     def _c_gdc(self, t, v):
         return self._c_dc(("dc", t[1]), v, type_args=[self.resolve_tv(a) for a in t[2]])
